@@ -50,14 +50,42 @@ from hugr._serialization.extension import Extension, Package
 from hugr._serialization.serial_hugr import SerialHugr
 from hugr._serialization.testing_hugr import TestingHugr
 R = {"SerialHugr": SerialHugr, "TestingHugr": TestingHugr}
+probe_doc = sys.stdin.read()
+refused = []
 for item in sys.argv[1:]:
     rn, st = item.split(":")
     root = R[rn]
+    if st == "bad":
+        # an invalid configuration must be refused; whatever it raises, the valid rebuilds that follow define the schema
+        try:
+            root._pydantic_rebuild(ConfigDict(strict=True, extra="forbidden"), force=True)
+            refused.append(False)
+        except Exception:
+            refused.append(True)
+        continue
     cfg = ConfigDict(strict=True, extra="forbid") if st == "1" else ConfigDict(strict=False, extra="allow")
     root._pydantic_rebuild(cfg, force=True)
 _, top = models_json_schema([(s, "validation") for s in (root, Extension, Package)], title="HUGR schema")
-json.dump(top, sys.stdout)
+probe = None
+if st == "0" and rn == "SerialHugr" and probe_doc:
+    # the lax decoder accepts a document the published lax schema accepts (one written by hugr-py itself)
+    from hugr.hugr import Hugr
+    try:
+        Hugr.load_json(probe_doc)
+        probe = "accepted"
+    except Exception as e:
+        probe = f"rejected: {type(e).__name__}: {str(e)[:200]}"
+json.dump({"schema": top, "probe": probe, "refused": refused}, sys.stdout)
 """
+
+
+def _probe_doc():
+    """A small document with value, order and static edges, written by the library itself (default configuration)."""
+    _, env = _env()
+    code = ("from hugr import tys, val\nfrom hugr.build.dfg import Dfg\nfrom hugr.std.logic import Not\n"
+            "d = Dfg(tys.Bool)\nn = d.add(Not(d.inputs()[0]))\nc = d.load(val.TRUE)\nd.add_state_order(d.input_node, n)\nd.set_outputs(n, c)\nprint(d.hugr.to_json())")
+    r = subprocess.run([sys.executable, "-B", "-c", code], env=env, capture_output=True, text=True, timeout=300)
+    return r.stdout.strip() if r.returncode == 0 else ""
 
 
 def histories(maxlen):
@@ -66,6 +94,12 @@ def histories(maxlen):
     import itertools
 
     confs = [(root, strict) for root, strict in FILES.values()]
+    # a refused rebuild (invalid configuration) in front of every single configuration and every pair
+    for n in (1, 2):
+        for h in itertools.product(confs, repeat=n):
+            if h[-1][0] == "TestingHugr" and any(r == "SerialHugr" for r, _ in h):
+                continue
+            yield ((h[0][0], "bad"), *h)
     for n in range(2, maxlen + 1):
         for h in itertools.product(confs, repeat=n):
             # TestingHugr's rebuild deliberately leaves SerialHugr (nested through function values) in
@@ -77,10 +111,16 @@ def histories(maxlen):
             yield h
 
 
+_PROBE = None
+
+
 def run_history(h):
+    global _PROBE
     _, env = _env()
-    args = [f"{r}:{1 if s else 0}" for r, s in h]
-    r = subprocess.run([sys.executable, "-B", "-c", _SEQ, *args], env=env, capture_output=True, text=True, timeout=600)
+    if _PROBE is None:
+        _PROBE = _probe_doc()
+    args = [f"{r}:{s if s == 'bad' else (1 if s else 0)}" for r, s in h]
+    r = subprocess.run([sys.executable, "-B", "-c", _SEQ, *args], env=env, capture_output=True, text=True, timeout=600, input=_PROBE)
     if r.returncode != 0:
         return None, r.stderr[-300:]
     return json.loads(r.stdout), None
@@ -255,20 +295,26 @@ def run_all(tier="quick"):
             total["defs"] += st["defs"]
             total["edges"] += st["edges"]
     total["histories"] = 0
-    if tier == "thorough":
+    if True:
         from concurrent.futures import ThreadPoolExecutor
 
         prefix_of = {v: k for k, v in FILES.items()}
-        hs = list(histories(4))
+        hs = list(histories(4 if tier == "thorough" else 2))
+        run_history(hs[0])  # builds the probe document once, before the pool starts
         with ThreadPoolExecutor(max_workers=os.cpu_count() or 4) as ex:
             outs = list(ex.map(run_history, hs))
         for h, (gen, err) in zip(hs, outs):
             total["histories"] += 1
             prefix = prefix_of[h[-1]]
-            tag = ">".join(f"{r[0]}{'s' if st else 'l'}" for r, st in h)
+            tag = ">".join(f"{r[0]}{'x' if st == 'bad' else ('s' if st else 'l')}" for r, st in h)
             if gen is None:
                 fails.append((f"history:{tag}:failed", f"rebuild history {h} failed: {err}"))
                 continue
+            if False in gen.get("refused", []):
+                fails.append((f"history:{tag}:invalid-config-accepted", f"rebuild history {h}: an invalid configuration (extra='forbidden') was accepted"))
+            if gen.get("probe") not in (None, "accepted"):
+                fails.append((f"history:{tag}:lax-decoder-rejects", f"rebuild history {h}: after the last (lax) rebuild the decoder rejects a document written by the library that the published lax schema accepts: {gen['probe']}"))
+            gen = gen["schema"]
             pub_path = os.path.join(pubdir, f"{prefix}_{v}.json")
             if os.path.exists(pub_path):
                 f, st_ = compare(json.load(open(pub_path)), gen, prefix, f"history[{tag}]")
@@ -292,9 +338,10 @@ def run(tier: str, seed: int) -> Result:
         "distinct_nontrivial": total["defs"],
         "rule": "state = schema definition reachable through $ref from SerialHugr/TestingHugr/Extension/Package, transition = $ref edge; the graphs of "
         "the 4 published files and of the 4 regenerated schemas (x2 generation modes) are closed completely and compared definition by "
-        "definition after erasing `additionalProperties: true`; model version strings vs file names; thorough: additionally every history of "
-        "2..4 rebuilds over the 4 (root, strict/lax) configurations in one process (testing schemas only for histories that never rebuilt "
-        "SerialHugr), schema after the last rebuild vs the published file",
+        "definition after erasing `additionalProperties: true`; model version strings vs file names; additionally every history of "
+        "2 (thorough 2..4) rebuilds over the 4 (root, strict/lax) configurations in one process (testing schemas only for histories that never rebuilt "
+        "SerialHugr), also with a refused rebuild (invalid configuration) in front; schema after the last rebuild vs the published file, and "
+        "after a last lax SerialHugr rebuild the decoder must accept a document written by the library",
         "samples": col.samples,
         "exhaustive": True,
         "files_compared": total["files"],
